@@ -179,6 +179,10 @@ class C01(Property):
                     case["g"] = rng.choice(with_hits)
                     case["via"] = "apply"
                     case["len"] = lay["length"]
+            # the outcome must depend on the present inputs only: half of the cases evaluate the same rule object
+            # first on a different hit assignment (the genes' hit lists rotated) — real runs reuse one rule object
+            if len(lay["genes"]) > 1 and rng.random() < 0.5:
+                case["warm"] = True
             yield case
         if deep:
             yield from self.small_scope(rng, full=(tier == "thorough"))
@@ -260,6 +264,11 @@ class C01(Property):
             try:
                 top = cond if type(cond) is rp.Conditions else rp.Conditions(False, [cond])
                 rule = rp.DetectionRule("r", "cat", case["cutoff"], 0, top)
+                if case.get("warm"):
+                    try:
+                        rule.detect(cds, feats, self._rotated(results, list(feats)), circular_origin=circ)
+                    except Exception:  # pylint: disable=broad-except
+                        pass
                 res = rule.detect(cds, feats, results, circular_origin=circ)
             except ValueError as exc:
                 if "positive requirement" not in str(exc):
@@ -269,6 +278,22 @@ class C01(Property):
             return {"err": err_kind(exc), "msg": str(exc)[:200]}
         anc = sorted([int(k[1:]), p] for k, ps in res.ancillary_hits.items() for p in ps)
         return {"met": bool(res.met), "reasons": sorted(res.matches), "anc": anc}
+
+    @staticmethod
+    def _rotated(results: Dict[str, Any], names: List[str]) -> Dict[str, Any]:
+        """the same genes with every gene's hit list moved to the next gene (hits re-labelled with their new gene)"""
+        import copy
+        out: Dict[str, Any] = {}
+        for i, name in enumerate(names):
+            src = names[(i + 1) % len(names)]
+            if src in results:
+                moved = []
+                for hit in results[src]:
+                    clone = copy.copy(hit)
+                    clone.hit_id = name
+                    moved.append(clone)
+                out[name] = moved
+        return out
 
     def run_apply(self, case: Dict[str, Any], cond: Any, cds: str) -> Optional[Dict[str, Any]]:
         """the same question asked the way a run asks it: apply_cluster_rules over a real Record with hits made by
@@ -313,6 +338,11 @@ class C01(Property):
                     results[name] = [HMMerHit.from_hsp(types.SimpleNamespace(
                         hit_id=name, query_id=p, query_start=1, query_end=9, evalue=1e-10, bitscore=float(sc)), 5)
                         for p, sc in g["hits"]]
+            if case.get("warm"):
+                try:
+                    cluster_prediction.apply_cluster_rules(record, self._rotated(results, [f"g{g['n']}" for g in case["genes"]]), [rule])
+                except Exception:  # pylint: disable=broad-except
+                    pass
             rp.DetectionRule.detect = spy     # type: ignore
             try:
                 by_cds, by_rule = cluster_prediction.apply_cluster_rules(record, results, [rule])
